@@ -4,6 +4,7 @@ package wsflate
 
 import (
 	"bytes"
+	"compress/flate"
 	"crypto/sha1"
 	"encoding/base64"
 	"io"
@@ -136,6 +137,16 @@ func vServerSession(tok, payload []byte, key [4]byte) []byte {
 		return vSessProblem(obs, "bad-close-accepted")
 	}
 	obs = append(obs, cconn.out...)
+	// a frame compressed and decompressed through the Helper all sessions share
+	cf, herr := vSharedHelper.CompressFrame(ws.NewTextFrame(append([]byte{}, payload...)))
+	if herr != nil {
+		return vSessProblem(obs, "helper-compress-error")
+	}
+	obs = append(obs, cf.Payload...)
+	df, herr := vSharedHelper.DecompressFrame(cf)
+	if herr != nil || vConcrete(vIte(vEqBytes(df.Payload, payload), 1, 0)) != 1 {
+		return vSessProblem(obs, "helper-roundtrip-error")
+	}
 	// the application's own reusable output buffer (capacity = a pool size class) sent on the
 	// server side: it stays the application's, whatever other sessions do with the pools
 	own := make([]byte, 128)
@@ -190,7 +201,18 @@ func vNewSharedConfig() {
 		names = append(names, string([]byte{'p', byte('a' + i), byte('a' + i)}))
 	}
 	vSharedSelect = ws.SelectFromSlice(names)
+	// one frame-compression Helper for all sessions (as with wsflate.DefaultHelper or an
+	// application-wide one; the stored-mode coder keeps it within the engine's reach)
+	vSharedHelper = &Helper{
+		Compressor: func(w io.Writer) Compressor {
+			fw, _ := flate.NewWriter(w, flate.NoCompression)
+			return fw
+		},
+		Decompressor: func(r io.Reader) Decompressor { return flate.NewReader(r) },
+	}
 }
+
+var vSharedHelper *Helper
 
 var vSharedDialer = ws.Dialer{Protocols: []string{"chat"}, Extensions: []httphead.Option{httphead.NewOption("permessage-deflate", map[string]string{"client_max_window_bits": ""})}}
 
